@@ -368,8 +368,9 @@ func nameComparisonRuleIn(p *core.Program, r *core.Result, fn *ssa.Function, env
 }
 
 // rawLengthRule (N-b): a branch on the raw (un-normalised) length of the
-// parameter that rejects the name must be a lower bound ≤ minLen.
-func rawLengthRule(p *core.Program, r *core.Result, fn *ssa.Function, minLen int, rule string) {
+// parameter that rejects the name must be a lower bound ≤ minLen; an upper
+// bound on the normalised length must be ≥ maxLen.
+func rawLengthRule(p *core.Program, r *core.Result, fn *ssa.Function, minLen, maxLen int, rule string) {
 	if len(fn.Params) == 0 {
 		return
 	}
@@ -484,7 +485,15 @@ func rawLengthRule(p *core.Program, r *core.Result, fn *ssa.Function, minLen int
 					}
 				default:
 					if isNormLen(bo.X) {
-						continue // an upper bound on the normalised length: not judged
+						// an upper bound on the normalised length must not cut off the longest
+						// listed name (for attributes: "ON" + the longest listed event)
+						switch {
+						case op == token.GTR && int(k) < maxLen, op == token.GEQ && int(k) <= maxLen:
+							r.Fail(rule, core.QualName(fn), expr, p.Pos(iff.Pos()), fmt.Sprintf("the length shortcut rejects normalised names longer than the bound, but the longest name that must be recognised has %d characters", maxLen))
+						case op == token.GTR || op == token.GEQ:
+							r.OK(rule, core.QualName(fn), expr, p.Pos(iff.Pos()), fmt.Sprintf("upper bound ≥ longest listed name (%d)", maxLen))
+						}
+						continue // exact values of the normalised length: not judged
 					}
 					r.Fail(rule, core.QualName(fn), expr, p.Pos(iff.Pos()), "a name is rejected because of an upper bound (or exact value) of its RAW length, measured before NUL bytes are stripped: inserting NULs inside a listed name changes the verdict")
 				}
@@ -890,4 +899,35 @@ func normalisedOfParam(v ssa.Value, depth int) bool {
 		}
 	}
 	return false
+}
+
+// maxNameLens: the longest element name (listed tags and the literal names the
+// tag predicate compares with) and the longest attribute name ("ON" + longest
+// listed event, longest listed attribute) that the name predicates must accept.
+func maxNameLens(t *tables.Tables, isTag *ssa.Function) (maxTag, maxAttr int) {
+	for _, n := range t.BlackTags {
+		if len(n.Name) > maxTag {
+			maxTag = len(n.Name)
+		}
+	}
+	for _, b := range isTag.Blocks {
+		for _, ins := range b.Instrs {
+			if bo, ok := ins.(*ssa.BinOp); ok && bo.Op == token.EQL {
+				if cs, ok := ssax.ConstString(bo.Y); ok && len(cs) > maxTag {
+					maxTag = len(cs)
+				}
+			}
+		}
+	}
+	for _, n := range t.Blacks {
+		if len(n.Name) > maxAttr {
+			maxAttr = len(n.Name)
+		}
+	}
+	for _, n := range t.BlackEvents {
+		if len(n.Name)+2 > maxAttr {
+			maxAttr = len(n.Name) + 2
+		}
+	}
+	return
 }
